@@ -25,6 +25,12 @@ CHECKS = {
  "C20": dict(cat="exploration", tech="runtime monitoring: expectation-by-construction monitor for data.New/NewWith plus pairwise law checks (symmetry, numeric equality, truthiness table, String determinism)",
    text="Seeded nested Go values over every reflect kind the converter accepts (expectation built together with the value), under both struct-option settings, must convert to the same structure and be idempotent; all ordered pairs of a pool of ~80 values must satisfy symmetric Equals, int/float numeric equality and the truthiness table.",
    note="Trusted: the value/expectation constructors in props/c20.go.", ref="DESIGN.md §6 C20"),
+ "C06": dict(cat="exploration", tech="runtime monitoring: totality monitor (panic at the API boundary, process death, render work budget at walk/range hooks, RLIMIT_CPU on isolated re-run) over ill-typed programs and hostile data",
+   text="Compilable programs without regard to types (every operator/operand-class cell in every position, every function and directive at every arity, valid bundles with hostile data and missing $ij, duplicate template names, errors at call depth 1-4 across files), standalone expressions through EvalExpr, globals files through ParseGlobals and API misuse: each call must return normally with a result xor an error.",
+   note="Totality only; bounded progress = 10^7 walk+range steps per render. Finite-but-huge range() calls are kept out of the workload.", ref="DESIGN.md §6 C06"),
+ "C12": dict(cat="fault_enumeration", tech="runtime monitoring with fault injection at the caller's io.Writer: every write-call index and boundary byte capacity of the fault-free run, per generated template",
+   text="For each generated bundle whose fault-free render succeeds, the write calls are recorded; then a sticky failing writer is injected at every write-call index (accepting nothing / half) and at byte capacities 0, 1, every write boundary +-1 and |O|-1: Render must return an error and the accepted bytes must be a prefix of the fault-free output; capacity |O| must give nil. Exhaustive over write indices per template; templates are sampled.",
+   note="Faults exist only at the io.Writer boundary (render does no other I/O). Content blocks and {log} buffer and are not write sites.", ref="DESIGN.md §6 C12"),
 }
 PENDING = "check not built yet (planned with runtime monitoring, see DESIGN.md §6); not claimed"
 props = [json.loads(l)['id'] for l in open('/verif/properties.jsonl')]
